@@ -8,11 +8,12 @@ import Operon.Model.Telomere
   use k                                                  select slot k (constructed now with the case's cfg if empty)
   tickd | tickk c | renewd | renewk n|none r | apor      other call forms (bare call = defaults read from the signatures)
   set thr n | set allow b | set life q|none | set idle q|none   public configuration attribute re-assigned
+  many n <op>                                            the op n times (1..3000), last observation printed
   cb 0|1|2                                               callbacks of the current lifecycle: return / on_phase_change raises /
                                                           on_senescence raises (a call ended by that exception prints ret `!`)
   start | tick c | err | hb | timeouts | renew n|none r | apo | term | rst | adv us     (`rst` = Telomere.reset(); a `reset` line separates cases)
 
-  observation: ret phase length errors ops renewals reason age [events] lockTrace is_operational is_active time_remaining ops_remaining ## tag
+  observation: ret phase length errors ops renewals reason age [events] lockTrace is_operational is_active time_remaining ops_remaining events_count ## tag
   A call whose lock-event path is stuck under the extracted lock kind prints `hang`; afterwards the object is
   abandoned (`dead`). -/
 open Operon Operon.Proto Operon.Telomere
@@ -49,7 +50,7 @@ def showState (s : State) : String :=
 
 def showAcc (cfg : Cfg) (s : State) : String :=
   joinSp [showBool (isOperational s), showBool (isActive s),
-    match timeRemaining cfg s with | none => "-" | some t => toString t, toString (opsRemaining s)]
+    match timeRemaining cfg s with | none => "-" | some t => toString t, toString (opsRemaining s), toString s.events]
 
 def optQ (s : String) (unit : Nat) : Option Nat :=
   if s = "none" then none else
@@ -97,7 +98,7 @@ def showSlot (w : World) (k : Nat) : String :=
   | some i => joinSp ["-", showState i.st, "[]", "-", showAcc i.cfg i.st]
   | none => "bad-op"
 
-def step' (d : DSt) (toks : List String) : DSt × String :=
+def step1 (d : DSt) (toks : List String) : DSt × String :=
   match toks with
   | ["cfg", m, e, a, l, i] =>
     let cfg := parseCfg m e a l i
@@ -159,5 +160,26 @@ def step' (d : DSt) (toks : List String) : DSt × String :=
             joinSp [if raised then "!" else showRet o.ret, showState o.st, showList (o.evs.map showEv), showLock o.lock,
               showAcc cfg o.st] ++ " ## " ++ o.tag ++ (if raised then " cb:raised" else ""))
         else ({ d with dead := d.cur :: d.dead }, "hang ## hang:" ++ o.tag)
+
+def manyOk : List String → Bool
+  | h :: _ => ["err", "hb", "tick", "tickd", "timeouts", "start", "renew", "renewd"].contains h
+  | [] => false
+
+def manyLoop (f : DSt → DSt × String) : Nat → DSt → String → DSt × String
+  | 0, d, o => (d, o)
+  | k + 1, d, _ => let r := f d; manyLoop f k r.1 r.2
+
+/-- `many n <op>`: the op n times (1..3000), the last observation is printed -/
+def step' (d : DSt) (toks : List String) : DSt × String :=
+  match toks with
+  | "many" :: n :: rest =>
+    match n.toNat? with
+    | some k =>
+      if 1 ≤ k ∧ k ≤ 3000 ∧ manyOk rest then
+        let r := manyLoop (fun d => step1 d rest) k d "bad-op"
+        (r.1, r.2 ++ (if r.2.contains '#' then " many" else " ## many"))
+      else step1 d toks
+    | none => step1 d toks
+  | _ => step1 d toks
 
 def main : IO Unit := runDriver ({} : DSt) step'
